@@ -2,6 +2,7 @@ package lists
 
 import (
 	"cmp"
+	"strings"
 
 	v "github.com/emirpasic/gods/v2/zzvsup"
 )
@@ -11,6 +12,7 @@ type VExt struct {
 	Append, Prepend func(vs ...int)
 	IndexOf         func(x int) int
 	Inv             func() // representation invariant of the concrete list (assertions)
+	Name            string // what String() begins with
 }
 
 const (
@@ -133,7 +135,9 @@ func VSeqStep(l List[int], pre []int, ext VExt) {
 		want = []int{}
 	case VOpGet:
 		i := v.Int("i")
+		v.BeginOp(true, l)
 		got, ok := l.Get(i)
+		v.EndOp()
 		if v.And(i >= 0, i < n) {
 			v.Assert(ok, "C03:get-found")
 			v.Assert(got == pre[i], "C03:get-value")
@@ -143,7 +147,9 @@ func VSeqStep(l List[int], pre []int, ext VExt) {
 		}
 	case VOpIndexOf:
 		x := v.Int("x")
+		v.BeginOp(true, l)
 		got := ext.IndexOf(x)
+		v.EndOp()
 		// model: least index holding x, else -1
 		exp := -1
 		for i := n - 1; i >= 0; i-- {
@@ -152,7 +158,9 @@ func VSeqStep(l List[int], pre []int, ext VExt) {
 		v.Assert(got == exp, "C03:indexof")
 	case VOpContains:
 		vs := vArgs("x")
+		v.BeginOp(true, l)
 		got := l.Contains(vs...)
+		v.EndOp()
 		exp := true
 		for _, x := range vs {
 			exp = v.And(exp, vCount(pre, x) > 0)
@@ -160,12 +168,17 @@ func VSeqStep(l List[int], pre []int, ext VExt) {
 		v.Assert(got == exp, "C03:contains")
 	case VOpObservers:
 	case VOpString:
+		v.BeginOp(true, l)
 		s := l.String()
-		_ = s
+		v.EndOp()
+		v.Assert(strings.HasPrefix(s, ext.Name), "C15:string-begins-with-container-name")
 	}
-	// observers agree with the model (C03) and with each other (C15)
+	// observers agree with the model (C03) and with each other (C15); they are read-only (C18)
 	ext.Inv()
+	v.BeginOp(true, l)
 	got := l.Values()
+	_, _ = l.Size(), l.Empty()
+	v.EndOp()
 	v.Assert(len(got) == len(want), "C03:values-length")
 	if len(got) == len(want) {
 		for i := 0; i < len(want); i++ {
